@@ -392,6 +392,10 @@ def run(repo: Repo, rep: Report, tier: str) -> None:
 
     # ---- R3
     residue_rule(repo, rep, R3, cg, clo, roots)
+    # ---- R4: a count can only be negative as the EOF sentinel (otherwise a length that happens to equal it reads to end of stream)
+    from .c07 import clamp_rule
+
+    clamp_rule(repo, rep, "C08.R4")
 
 
 def residue_rule(repo: Repo, rep: Report, rid: str, cg: CallGraph, clo: set[str], roots: list[str]) -> None:
